@@ -109,30 +109,32 @@ Record state := {
   dtodo : list handler;
   dcont : list instr;
   aconts : list (N * list instr);
-  glog : list gev
+  glog : list gev;
+  fixed : bool     (* true: start() holds the observer lock and refuses a second start (repair F12) *)
 }.
 
-Definition init : state :=
+Definition init_of (fx : bool) : state :=
   {| handlers := []; watches := []; emitters := []; efw := []; ems := []; queue := []; lock := None;
      dstarted := false; dstop := false; dexited := false; dcur := None; dtodo := []; dcont := [];
-     aconts := []; glog := [] |}.
+     aconts := []; glog := []; fixed := fx |}.
+Definition init : state := init_of false.
 
 (* ---- field updates *)
-Definition set_handlers v s := {| handlers := v; watches := watches s; emitters := emitters s; efw := efw s; ems := ems s; queue := queue s; lock := lock s; dstarted := dstarted s; dstop := dstop s; dexited := dexited s; dcur := dcur s; dtodo := dtodo s; dcont := dcont s; aconts := aconts s; glog := glog s |}.
-Definition set_watches v s := {| handlers := handlers s; watches := v; emitters := emitters s; efw := efw s; ems := ems s; queue := queue s; lock := lock s; dstarted := dstarted s; dstop := dstop s; dexited := dexited s; dcur := dcur s; dtodo := dtodo s; dcont := dcont s; aconts := aconts s; glog := glog s |}.
-Definition set_emitters v s := {| handlers := handlers s; watches := watches s; emitters := v; efw := efw s; ems := ems s; queue := queue s; lock := lock s; dstarted := dstarted s; dstop := dstop s; dexited := dexited s; dcur := dcur s; dtodo := dtodo s; dcont := dcont s; aconts := aconts s; glog := glog s |}.
-Definition set_efw v s := {| handlers := handlers s; watches := watches s; emitters := emitters s; efw := v; ems := ems s; queue := queue s; lock := lock s; dstarted := dstarted s; dstop := dstop s; dexited := dexited s; dcur := dcur s; dtodo := dtodo s; dcont := dcont s; aconts := aconts s; glog := glog s |}.
-Definition set_ems v s := {| handlers := handlers s; watches := watches s; emitters := emitters s; efw := efw s; ems := v; queue := queue s; lock := lock s; dstarted := dstarted s; dstop := dstop s; dexited := dexited s; dcur := dcur s; dtodo := dtodo s; dcont := dcont s; aconts := aconts s; glog := glog s |}.
-Definition set_queue v s := {| handlers := handlers s; watches := watches s; emitters := emitters s; efw := efw s; ems := ems s; queue := v; lock := lock s; dstarted := dstarted s; dstop := dstop s; dexited := dexited s; dcur := dcur s; dtodo := dtodo s; dcont := dcont s; aconts := aconts s; glog := glog s |}.
-Definition set_lock v s := {| handlers := handlers s; watches := watches s; emitters := emitters s; efw := efw s; ems := ems s; queue := queue s; lock := v; dstarted := dstarted s; dstop := dstop s; dexited := dexited s; dcur := dcur s; dtodo := dtodo s; dcont := dcont s; aconts := aconts s; glog := glog s |}.
-Definition set_dstarted v s := {| handlers := handlers s; watches := watches s; emitters := emitters s; efw := efw s; ems := ems s; queue := queue s; lock := lock s; dstarted := v; dstop := dstop s; dexited := dexited s; dcur := dcur s; dtodo := dtodo s; dcont := dcont s; aconts := aconts s; glog := glog s |}.
-Definition set_dstop v s := {| handlers := handlers s; watches := watches s; emitters := emitters s; efw := efw s; ems := ems s; queue := queue s; lock := lock s; dstarted := dstarted s; dstop := v; dexited := dexited s; dcur := dcur s; dtodo := dtodo s; dcont := dcont s; aconts := aconts s; glog := glog s |}.
-Definition set_dexited v s := {| handlers := handlers s; watches := watches s; emitters := emitters s; efw := efw s; ems := ems s; queue := queue s; lock := lock s; dstarted := dstarted s; dstop := dstop s; dexited := v; dcur := dcur s; dtodo := dtodo s; dcont := dcont s; aconts := aconts s; glog := glog s |}.
-Definition set_dcur v s := {| handlers := handlers s; watches := watches s; emitters := emitters s; efw := efw s; ems := ems s; queue := queue s; lock := lock s; dstarted := dstarted s; dstop := dstop s; dexited := dexited s; dcur := v; dtodo := dtodo s; dcont := dcont s; aconts := aconts s; glog := glog s |}.
-Definition set_dtodo v s := {| handlers := handlers s; watches := watches s; emitters := emitters s; efw := efw s; ems := ems s; queue := queue s; lock := lock s; dstarted := dstarted s; dstop := dstop s; dexited := dexited s; dcur := dcur s; dtodo := v; dcont := dcont s; aconts := aconts s; glog := glog s |}.
-Definition set_dcont v s := {| handlers := handlers s; watches := watches s; emitters := emitters s; efw := efw s; ems := ems s; queue := queue s; lock := lock s; dstarted := dstarted s; dstop := dstop s; dexited := dexited s; dcur := dcur s; dtodo := dtodo s; dcont := v; aconts := aconts s; glog := glog s |}.
-Definition set_aconts v s := {| handlers := handlers s; watches := watches s; emitters := emitters s; efw := efw s; ems := ems s; queue := queue s; lock := lock s; dstarted := dstarted s; dstop := dstop s; dexited := dexited s; dcur := dcur s; dtodo := dtodo s; dcont := dcont s; aconts := v; glog := glog s |}.
-Definition set_glog v s := {| handlers := handlers s; watches := watches s; emitters := emitters s; efw := efw s; ems := ems s; queue := queue s; lock := lock s; dstarted := dstarted s; dstop := dstop s; dexited := dexited s; dcur := dcur s; dtodo := dtodo s; dcont := dcont s; aconts := aconts s; glog := v |}.
+Definition set_handlers v s := {| handlers := v; watches := watches s; emitters := emitters s; efw := efw s; ems := ems s; queue := queue s; lock := lock s; dstarted := dstarted s; dstop := dstop s; dexited := dexited s; dcur := dcur s; dtodo := dtodo s; dcont := dcont s; aconts := aconts s; glog := glog s; fixed := fixed s |}.
+Definition set_watches v s := {| handlers := handlers s; watches := v; emitters := emitters s; efw := efw s; ems := ems s; queue := queue s; lock := lock s; dstarted := dstarted s; dstop := dstop s; dexited := dexited s; dcur := dcur s; dtodo := dtodo s; dcont := dcont s; aconts := aconts s; glog := glog s; fixed := fixed s |}.
+Definition set_emitters v s := {| handlers := handlers s; watches := watches s; emitters := v; efw := efw s; ems := ems s; queue := queue s; lock := lock s; dstarted := dstarted s; dstop := dstop s; dexited := dexited s; dcur := dcur s; dtodo := dtodo s; dcont := dcont s; aconts := aconts s; glog := glog s; fixed := fixed s |}.
+Definition set_efw v s := {| handlers := handlers s; watches := watches s; emitters := emitters s; efw := v; ems := ems s; queue := queue s; lock := lock s; dstarted := dstarted s; dstop := dstop s; dexited := dexited s; dcur := dcur s; dtodo := dtodo s; dcont := dcont s; aconts := aconts s; glog := glog s; fixed := fixed s |}.
+Definition set_ems v s := {| handlers := handlers s; watches := watches s; emitters := emitters s; efw := efw s; ems := v; queue := queue s; lock := lock s; dstarted := dstarted s; dstop := dstop s; dexited := dexited s; dcur := dcur s; dtodo := dtodo s; dcont := dcont s; aconts := aconts s; glog := glog s; fixed := fixed s |}.
+Definition set_queue v s := {| handlers := handlers s; watches := watches s; emitters := emitters s; efw := efw s; ems := ems s; queue := v; lock := lock s; dstarted := dstarted s; dstop := dstop s; dexited := dexited s; dcur := dcur s; dtodo := dtodo s; dcont := dcont s; aconts := aconts s; glog := glog s; fixed := fixed s |}.
+Definition set_lock v s := {| handlers := handlers s; watches := watches s; emitters := emitters s; efw := efw s; ems := ems s; queue := queue s; lock := v; dstarted := dstarted s; dstop := dstop s; dexited := dexited s; dcur := dcur s; dtodo := dtodo s; dcont := dcont s; aconts := aconts s; glog := glog s; fixed := fixed s |}.
+Definition set_dstarted v s := {| handlers := handlers s; watches := watches s; emitters := emitters s; efw := efw s; ems := ems s; queue := queue s; lock := lock s; dstarted := v; dstop := dstop s; dexited := dexited s; dcur := dcur s; dtodo := dtodo s; dcont := dcont s; aconts := aconts s; glog := glog s; fixed := fixed s |}.
+Definition set_dstop v s := {| handlers := handlers s; watches := watches s; emitters := emitters s; efw := efw s; ems := ems s; queue := queue s; lock := lock s; dstarted := dstarted s; dstop := v; dexited := dexited s; dcur := dcur s; dtodo := dtodo s; dcont := dcont s; aconts := aconts s; glog := glog s; fixed := fixed s |}.
+Definition set_dexited v s := {| handlers := handlers s; watches := watches s; emitters := emitters s; efw := efw s; ems := ems s; queue := queue s; lock := lock s; dstarted := dstarted s; dstop := dstop s; dexited := v; dcur := dcur s; dtodo := dtodo s; dcont := dcont s; aconts := aconts s; glog := glog s; fixed := fixed s |}.
+Definition set_dcur v s := {| handlers := handlers s; watches := watches s; emitters := emitters s; efw := efw s; ems := ems s; queue := queue s; lock := lock s; dstarted := dstarted s; dstop := dstop s; dexited := dexited s; dcur := v; dtodo := dtodo s; dcont := dcont s; aconts := aconts s; glog := glog s; fixed := fixed s |}.
+Definition set_dtodo v s := {| handlers := handlers s; watches := watches s; emitters := emitters s; efw := efw s; ems := ems s; queue := queue s; lock := lock s; dstarted := dstarted s; dstop := dstop s; dexited := dexited s; dcur := dcur s; dtodo := v; dcont := dcont s; aconts := aconts s; glog := glog s; fixed := fixed s |}.
+Definition set_dcont v s := {| handlers := handlers s; watches := watches s; emitters := emitters s; efw := efw s; ems := ems s; queue := queue s; lock := lock s; dstarted := dstarted s; dstop := dstop s; dexited := dexited s; dcur := dcur s; dtodo := dtodo s; dcont := v; aconts := aconts s; glog := glog s; fixed := fixed s |}.
+Definition set_aconts v s := {| handlers := handlers s; watches := watches s; emitters := emitters s; efw := efw s; ems := ems s; queue := queue s; lock := lock s; dstarted := dstarted s; dstop := dstop s; dexited := dexited s; dcur := dcur s; dtodo := dtodo s; dcont := dcont s; aconts := v; glog := glog s; fixed := fixed s |}.
+Definition set_glog v s := {| handlers := handlers s; watches := watches s; emitters := emitters s; efw := efw s; ems := ems s; queue := queue s; lock := lock s; dstarted := dstarted s; dstop := dstop s; dexited := dexited s; dcur := dcur s; dtodo := dtodo s; dcont := dcont s; aconts := aconts s; glog := v; fixed := fixed s |}.
 
 Definition say (g : gev) (s : state) : state := set_glog (g :: glog s) s.
 
@@ -177,14 +179,14 @@ Definition upd_em (e : emid) (f : em -> em) (s : state) : state := set_ems (upd_
 Definition em_started (m : em) : bool := match epcs m with ENew => false | _ => true end.
 Definition em_exited (m : em) : bool := match epcs m with EExited => true | _ => false end.
 
-Definition body (c : call) : list instr :=
+Definition body (fx : bool) (c : call) : list instr :=
   match c with
   | CSchedule h w => [IAcq; ISched h w; IRel; IRet c]
   | CUnschedule w => [IAcq; IUnsched w; IRel; IRet c]
   | CAdd h w => [IAcq; IAddH h w; IRel; IRet c]
   | CRemove h w => [IAcq; IRemH h w; IRel; IRet c]
   | CUnscheduleAll => [IAcq; IClear; IRel; IRet c]
-  | CStart => [IStartCopy; IRet c]
+  | CStart => if fx then [IAcq; IStartCopy; IRel; IRet c] else [IStartCopy; IRet c]
   | CStop => [ISetStop; IAcq; IClear; IRel; IMarker; IRet c]
   | CJoin => [IJoinDisp; IRet c]
   end.
@@ -210,7 +212,7 @@ Definition exec (s : state) (t : tid) (i : instr) (k : list instr) (inp : input)
   let go k' s' := Some (set_cont t k' s') in
   let raise := go (unwind k) in
   match i with
-  | ICall c => go (body c ++ k) (say (GCall t c) s)
+  | ICall c => go (body (fixed s) c ++ k) (say (GCall t c) s)
   | IAcq =>
       match lock s with
       | None => go k (say (GAcq t) (set_lock (Some (t, 1)) s))
@@ -293,7 +295,8 @@ Definition exec (s : state) (t : tid) (i : instr) (k : list instr) (inp : input)
   | IStartCopy =>
       match inp with
       | InOrd order =>
-          if perm_ok order (emitters s) then go (map IStartEm order ++ IStartDisp :: k) (say (GOrd t order) s)
+          if fixed s && dstarted s then raise s
+          else if perm_ok order (emitters s) then go (map IStartEm order ++ IStartDisp :: k) (say (GOrd t order) s)
           else None
       | _ => None
       end
@@ -408,7 +411,7 @@ Definition step (s : state) (l : label) : option state :=
   match l with
   | LCall n c =>
       match cont s (TA n) with
-      | [] => Some (closure FUEL (TA n) (set_cont (TA n) (body c) (say (GCall (TA n) c) s)))
+      | [] => Some (closure FUEL (TA n) (set_cont (TA n) (body (fixed s) c) (say (GCall (TA n) c) s)))
       | _ => None
       end
   | LStep t => step_thread s t NoIn
@@ -460,7 +463,7 @@ Fixpoint run (s : state) (tr : list label) : option state :=
   | l :: tr' => match step s l with Some s' => run s' tr' | None => None end
   end.
 
-Definition reachable (s : state) : Prop := exists tr, run init tr = Some s.
+Definition reachable (s : state) : Prop := exists fx tr, run (init_of fx) tr = Some s.
 
 (* ---- enabledness, deadlock, termination (boolean) *)
 Definition em_running (m : em) : bool :=
